@@ -85,7 +85,14 @@ pub struct World {
 	pub unrep: std::cell::Cell<u64>,
 	/// key the next block's coinbase is (re-)requested under (a candidate of an earlier request)
 	pub cb_key: Option<String>,
+	/// TRUE: operations go through the structs and listeners the wallet binary serves - grin_wallet_api::Owner for
+	/// owner calls, the foreign JSON-RPC listener (controller::ForeignAPIHandlerV2: request mapping of foreign_rpc.rs,
+	/// the version middleware, api::Foreign) for receive_tx / build_coinbase, api::Foreign for finalize_tx - instead
+	/// of libwallet::api_impl directly
+	pub via_api: bool,
 }
+pub type OwnerApi = grin_wallet_api::Owner<LC, DirectNode, ExtKeychain>;
+pub type ForeignApi = grin_wallet_api::Foreign<'static, LC, DirectNode, ExtKeychain>;
 
 pub fn key_str(id: &Identifier, _mmr: &Option<u64>) -> String {
 	let p = id.to_path();
@@ -142,6 +149,39 @@ pub fn err_class(e: &libwallet::Error) -> String {
 			let head: String = s.chars().take_while(|c| c.is_alphanumeric()).collect();
 			format!("other:{}", head)
 		}
+	}
+}
+
+/// the same classes for an error as the JSON-RPC listeners serialise it ("Variant" or {"Variant": payload})
+pub fn err_class_json(e: &Value) -> String {
+	let (name, payload) = match e {
+		Value::String(s) => (s.clone(), String::new()),
+		Value::Object(m) => match m.iter().next() {
+			Some((k, v)) => (k.clone(), v.to_string()),
+			None => ("".into(), String::new()),
+		},
+		_ => ("".into(), String::new()),
+	};
+	match name.as_str() {
+		"NotEnoughFunds" => "notenough".into(),
+		"Fee" => "fee".into(),
+		"TransactionExpired" => "expired".into(),
+		"TransactionAlreadyReceived" => "already".into(),
+		"TransactionWasCancelled" => "wascancelled".into(),
+		"TransactionDoesntExist" => "notfound".into(),
+		"TransactionNotCancellable" => "notcancellable".into(),
+		"TransactionCancellationError" => "nonode".into(),
+		"ClientCallback" => "node".into(),
+		"InvalidKeychainMask" => "mask".into(),
+		"KeychainDoesntExist" => "closed".into(),
+		"PaymentProof" => "proof".into(),
+		"SlateState" => "state".into(),
+		"Backend" | "IO" if payload.contains("verif") => "injected".into(),
+		"Backend" => "backend".into(),
+		"Lifecycle" => "lifecycle".into(),
+		"GenericError" => "generic".into(),
+		"StoredTx" => "storedtx".into(),
+		n => format!("other:{}", n),
 	}
 }
 
@@ -211,6 +251,7 @@ impl World {
 			last_built: None,
 			unrep: std::cell::Cell::new(0),
 			cb_key: None,
+			via_api: false,
 		}
 	}
 
@@ -311,6 +352,40 @@ impl World {
 			let wi = l.lc_provider()?.wallet_inst()?;
 			f(&mut **wi, mask.as_ref())
 		})
+	}
+
+	pub fn owner_api(&self, w: &str) -> OwnerApi {
+		grin_wallet_api::Owner::new(self.inst(w), None)
+	}
+	pub fn foreign_api(&self, w: &str) -> ForeignApi {
+		grin_wallet_api::Foreign::new(self.inst(w), self.mask(w), None, false)
+	}
+	/// one request to the wallet's foreign JSON-RPC listener; Ok(result.Ok) | Err(class of result.Err / of the RPC error)
+	pub fn foreign_rpc(&self, w: &str, method: &str, params: Value) -> Outcome<Value> {
+		use grin_wallet_controller::controller::ForeignAPIHandlerV2;
+		let h: ForeignAPIHandlerV2<LC, DirectNode, ExtKeychain> =
+			ForeignAPIHandlerV2::new(self.inst(w), Arc::new(Mutex::new(self.mask(w))), false, Mutex::new(None));
+		let body = json!({"jsonrpc": "2.0", "id": 1, "method": method, "params": params}).to_string().into_bytes();
+		let r = catch_unwind(AssertUnwindSafe(|| {
+			use grin_api::Handler;
+			let req = hyper::Request::builder().method("POST").uri("/v2/foreign").body(hyper::Body::from(body)).unwrap();
+			let resp = futures::executor::block_on(h.post(req)).map_err(|_| "rpc:transport".to_string())?;
+			let b = futures::executor::block_on(hyper::body::to_bytes(resp.into_body())).map_err(|_| "rpc:body".to_string())?;
+			serde_json::from_slice::<Value>(&b).map_err(|_| "rpc:notjson".to_string())
+		}));
+		match r {
+			Err(p) => Outcome::Panic(panic_msg(&p)),
+			Ok(Err(c)) => Outcome::Err(c),
+			Ok(Ok(v)) => {
+				if let Some(ok) = v["result"].get("Ok") {
+					Outcome::Ok(ok.clone())
+				} else if let Some(e) = v["result"].get("Err") {
+					Outcome::Err(err_class_json(e))
+				} else {
+					Outcome::Err("rpc:error".into())
+				}
+			}
+		}
 	}
 
 	// ------------------------------------------------------------- slates
@@ -698,25 +773,37 @@ impl World {
 		let cbk = self.cb_key.as_ref().and_then(|k| parse_key(k));
 		let (cbname, out, kern) = match to {
 			Some(w) => {
-				let r = self.with(w, |wi, mask| {
-					foreign::build_coinbase(
-						wi,
-						mask,
-						&BlockFees {
-							fees,
-							key_id: cbk.clone(),
-							height,
-						},
-						false,
-					)
-				});
+				let bf = BlockFees {
+					fees,
+					key_id: cbk.clone(),
+					height,
+				};
+				let r = if self.via_api {
+					// the mining node asks over the foreign listener
+					match self.foreign_rpc(w, "build_coinbase", json!([bf])) {
+						Outcome::Ok(v) => {
+							let k = v["key_id"].as_str().and_then(|h| Identifier::from_hex(h).ok());
+							let o = serde_json::from_value::<core::core::Output>(v["output"].clone());
+							let kn = serde_json::from_value::<core::core::TxKernel>(v["kernel"].clone());
+							match (k, o, kn) {
+								(Some(k), Ok(o), Ok(kn)) => Outcome::Ok((k, o, kn)),
+								_ => Outcome::Err("rpc:reply".into()),
+							}
+						}
+						Outcome::Err(c) => Outcome::Err(c),
+						Outcome::Panic(m) => Outcome::Panic(m),
+					}
+				} else {
+					self.with(w, |wi, mask| {
+						foreign::build_coinbase(wi, mask, &bf, false).map(|cb| (cb.key_id.clone().unwrap(), cb.output, cb.kernel))
+					})
+				};
 				match r {
-					Outcome::Ok(cb) => {
-						let key = cb.key_id.clone().unwrap();
+					Outcome::Ok((key, output, kernel)) => {
 						(
 							format!("{}:{}", self.wallets[w].seed, key_str(&key, &None)),
-							cb.output,
-							cb.kernel,
+							output,
+							kernel,
 						)
 					}
 					o => {
@@ -766,8 +853,14 @@ impl World {
 	pub fn refresh(&mut self, w: &str, minconf: u64) -> Value {
 		let inst = self.inst(w);
 		let mask = self.mask(w);
+		let via = self.via_api;
+		let api = self.owner_api(w);
 		let r = guarded(|| {
-			owner::retrieve_summary_info(inst, mask.as_ref(), &None, true, minconf)
+			if via {
+				api.retrieve_summary_info(mask.as_ref(), true, minconf)
+			} else {
+				owner::retrieve_summary_info(inst, mask.as_ref(), &None, true, minconf)
+			}
 		});
 		match r {
 			Outcome::Ok((validated, info)) => json!({
@@ -817,7 +910,12 @@ impl World {
 			payment_proof_recipient_address: proof_addr,
 			..Default::default()
 		};
-		let r = self.with(w, |wi, mask| owner::init_send_tx(wi, mask, args, false));
+		let r = if self.via_api {
+			let (api, m) = (self.owner_api(w), self.mask(w));
+			guarded(|| api.init_send_tx(m.as_ref(), args))
+		} else {
+			self.with(w, |wi, mask| owner::init_send_tx(wi, mask, args, false))
+		};
 		let mut ev = json!({"ev": "init_send", "w": w, "sl": name, "args": a, "res": r.res(), "detail": r.detail(), "hasproof": hasproof});
 		if let Outcome::Ok(slate) = r {
 			let rec = self.slates.entry(name.to_string()).or_default();
@@ -842,7 +940,12 @@ impl World {
 			Some(s) => s,
 			None => return json!({"ev": "lock", "w": w, "sl": name, "stage": stage, "res": "skip"}),
 		};
-		let r = self.with(w, |wi, mask| owner::tx_lock_outputs(wi, mask, &slate));
+		let r = if self.via_api {
+			let (api, m) = (self.owner_api(w), self.mask(w));
+			guarded(|| api.tx_lock_outputs(m.as_ref(), &slate))
+		} else {
+			self.with(w, |wi, mask| owner::tx_lock_outputs(wi, mask, &slate))
+		};
 		json!({"ev": "lock", "w": w, "sl": name, "stage": stage, "ttl": slate.ttl_cutoff_height,
 			"hasproof": slate.payment_proof.is_some(), "res": r.res(), "detail": r.detail()})
 	}
@@ -856,9 +959,24 @@ impl World {
 			None => return json!({"ev": "receive", "w": w, "sl": name, "res": "skip"}),
 		};
 		let d = if dest.is_empty() { None } else { Some(dest.to_string()) };
-		let r = self.with(w, |wi, mask| {
-			foreign::receive_tx(wi, mask, &slate, d.as_ref().map(|s| s.as_str()), false)
-		});
+		let r = if self.via_api {
+			// the request as a counter-party sends it: V4 JSON over the foreign listener
+			match libwallet::VersionedSlate::into_version(slate.clone(), libwallet::SlateVersion::V4) {
+				Err(_) => Outcome::Err("rpc:unencodable".into()),
+				Ok(vs) => match self.foreign_rpc(w, "receive_tx", json!([vs, d, Value::Null])) {
+					Outcome::Ok(v) => match serde_json::from_value::<libwallet::VersionedSlate>(v) {
+						Ok(vs) => Outcome::Ok(Slate::from(vs)),
+						Err(_) => Outcome::Err("rpc:reply".into()),
+					},
+					Outcome::Err(c) => Outcome::Err(c),
+					Outcome::Panic(m) => Outcome::Panic(m),
+				},
+			}
+		} else {
+			self.with(w, |wi, mask| {
+				foreign::receive_tx(wi, mask, &slate, d.as_ref().map(|s| s.as_str()), false)
+			})
+		};
 		let kernin = {
 			let secp = util::static_secp_instance();
 			let secp = secp.lock();
@@ -887,13 +1005,24 @@ impl World {
 			Some(s) => s,
 			None => return json!({"ev": "finalize", "w": w, "sl": name, "stage": stage, "res": "skip"}),
 		};
-		let r = self.with(w, |wi, mask| {
+		let r = if self.via_api {
+			let m = self.mask(w);
 			if foreign_api {
-				foreign::finalize_tx(wi, mask, &slate, false)
+				let api = self.foreign_api(w);
+				guarded(|| api.finalize_tx(&slate, false))
 			} else {
-				owner::finalize_tx(wi, mask, &slate)
+				let api = self.owner_api(w);
+				guarded(|| api.finalize_tx(m.as_ref(), &slate))
 			}
-		});
+		} else {
+			self.with(w, |wi, mask| {
+				if foreign_api {
+					foreign::finalize_tx(wi, mask, &slate, false)
+				} else {
+					owner::finalize_tx(wi, mask, &slate)
+				}
+			})
+		};
 		let mut ev = json!({"ev": "finalize", "w": w, "sl": name, "stage": stage, "rep": rep, "ttl": slate.ttl_cutoff_height,
 			"hasproof": slate.payment_proof.is_some(), "foreign": foreign_api, "res": r.res(), "detail": r.detail()});
 		if let Outcome::Ok(s3) = r {
@@ -938,13 +1067,26 @@ impl World {
 		}
 		let inst = self.inst(w);
 		let mask = self.mask(w);
-		let r = guarded(|| owner::cancel_tx(inst, mask.as_ref(), &None, id, sid));
+		let via = self.via_api;
+		let api = self.owner_api(w);
+		let r = guarded(|| {
+			if via {
+				api.cancel_tx(mask.as_ref(), id, sid)
+			} else {
+				owner::cancel_tx(inst, mask.as_ref(), &None, id, sid)
+			}
+		});
 		json!({"ev": "cancel", "w": w, "id": id.map(|x| x as i64).unwrap_or(-1), "sl": slate.unwrap_or(""),
 			"res": r.res(), "detail": r.detail()})
 	}
 
 	pub fn create_account(&mut self, w: &str, label: &str) -> Value {
-		let r = self.with(w, |wi, mask| owner::create_account_path(wi, mask, label));
+		let r = if self.via_api {
+			let (api, m) = (self.owner_api(w), self.mask(w));
+			guarded(|| api.create_account_path(m.as_ref(), label))
+		} else {
+			self.with(w, |wi, mask| owner::create_account_path(wi, mask, label))
+		};
 		let path = match &r {
 			Outcome::Ok(p) => acct_str(p),
 			_ => "".into(),
@@ -952,7 +1094,12 @@ impl World {
 		json!({"ev": "create_account", "w": w, "label": label, "name": path, "res": r.res()})
 	}
 	pub fn set_active(&mut self, w: &str, label: &str) -> Value {
-		let r = self.with(w, |wi, _| owner::set_active_account(wi, label));
+		let r = if self.via_api {
+			let (api, m) = (self.owner_api(w), self.mask(w));
+			guarded(|| api.set_active_account(m.as_ref(), label))
+		} else {
+			self.with(w, |wi, _| owner::set_active_account(wi, label))
+		};
 		if r.res() == "ok" {
 			if let Some(h) = self.wallets.get_mut(w) {
 				h.active = label.to_string();
@@ -968,7 +1115,12 @@ impl World {
 			amount: amt,
 			target_slate_version: None,
 		};
-		let r = self.with(w, |wi, mask| owner::issue_invoice_tx(wi, mask, args, false));
+		let r = if self.via_api {
+			let (api, m) = (self.owner_api(w), self.mask(w));
+			guarded(|| api.issue_invoice_tx(m.as_ref(), args))
+		} else {
+			self.with(w, |wi, mask| owner::issue_invoice_tx(wi, mask, args, false))
+		};
 		let mut ev = json!({"ev": "issue_invoice", "w": w, "sl": name, "args": a, "res": r.res(), "detail": r.detail()});
 		if let Outcome::Ok(slate) = r {
 			let rec = self.slates.entry(name.to_string()).or_default();
@@ -997,7 +1149,12 @@ impl World {
 			ttl_blocks: a["ttlb"].as_u64().filter(|x| *x > 0),
 			..Default::default()
 		};
-		let r = self.with(w, |wi, mask| owner::process_invoice_tx(wi, mask, &slate, args, false));
+		let r = if self.via_api {
+			let (api, m) = (self.owner_api(w), self.mask(w));
+			guarded(|| api.process_invoice_tx(m.as_ref(), &slate, args))
+		} else {
+			self.with(w, |wi, mask| owner::process_invoice_tx(wi, mask, &slate, args, false))
+		};
 		let mut ev = json!({"ev": "process_invoice", "w": w, "sl": name, "args": a, "amt": self.val(slate.amount),
 			"ttl": slate.ttl_cutoff_height, "res": r.res(), "detail": r.detail()});
 		if let Outcome::Ok(s2) = r {
@@ -1014,20 +1171,22 @@ impl World {
 
 	pub fn build_coinbase(&mut self, w: &str, key: Option<&str>, height: u64, fees: u64) -> Value {
 		let key_id = key.and_then(|k| parse_key(k));
-		let r = self.with(w, |wi, mask| {
-			foreign::build_coinbase(
-				wi,
-				mask,
-				&BlockFees {
-					fees,
-					key_id: key_id.clone(),
-					height,
-				},
-				false,
-			)
-		});
+		let bf = BlockFees {
+			fees,
+			key_id: key_id.clone(),
+			height,
+		};
+		let r = if self.via_api {
+			match self.foreign_rpc(w, "build_coinbase", json!([bf])) {
+				Outcome::Ok(v) => Outcome::Ok(v["key_id"].as_str().and_then(|h| Identifier::from_hex(h).ok())),
+				Outcome::Err(c) => Outcome::Err(c),
+				Outcome::Panic(m) => Outcome::Panic(m),
+			}
+		} else {
+			self.with(w, |wi, mask| foreign::build_coinbase(wi, mask, &bf, false).map(|cb| cb.key_id))
+		};
 		let ret = match &r {
-			Outcome::Ok(cb) => cb.key_id.as_ref().map(|k| key_str(k, &None)).unwrap_or_default(),
+			Outcome::Ok(k) => k.as_ref().map(|k| key_str(k, &None)).unwrap_or_default(),
 			_ => "".into(),
 		};
 		json!({"ev": "build_coinbase", "w": w, "key": key.unwrap_or(""), "h": height,
@@ -1128,7 +1287,15 @@ impl World {
 	pub fn scan(&mut self, w: &str, start: Option<u64>, del: bool) -> Value {
 		let inst = self.inst(w);
 		let mask = self.mask(w);
-		let r = guarded(|| owner::scan(inst, mask.as_ref(), start, del, &None));
+		let via = self.via_api;
+		let api = self.owner_api(w);
+		let r = guarded(|| {
+			if via {
+				api.scan(mask.as_ref(), start, del)
+			} else {
+				owner::scan(inst, mask.as_ref(), start, del, &None)
+			}
+		});
 		json!({"ev": "scan", "w": w, "start": start.map(|x| x as i64).unwrap_or(-1), "del": del,
 			"res": r.res(), "detail": r.detail()})
 	}
